@@ -184,6 +184,7 @@ def C05(ctx):
     wps.rule_best_path_c(ctx, m, tier=ctx.tier)
     wps.rule_best_path_moves(ctx, m)
     wps.rule_best_path_prob_moves(ctx, m)
+    wps.rule_best_path_markers(ctx, m)
     for kir in (True, False):
         with ctx.scoped(lambda r, t: r == 'R-BAND'):
             _wp(ctx, m, kir, ['band'])          # a path traced through an out-of-band cell is not a valid warping path
